@@ -39,6 +39,19 @@ class GNode:
     retnone: bool = False  # the node function returns None (a legal result: executed for its side effect)
 
 
+def kw_items(n):
+    """(keyword name, edge) of the keyword edges of a node; parallel keyword edges from one producer get distinct names."""
+    seen = {}
+    out = []
+    for e in n.edges:
+        if e.kind != "kw":
+            continue
+        base = f"k{e.src}" if e.src >= 0 else f"p{-1 - e.src}"
+        seen[base] = seen.get(base, 0) + 1
+        out.append((base if seen[base] == 1 else f"{base}_{seen[base]}", e))
+    return out
+
+
 @dataclass(frozen=True)
 class GProg:
     nodes: Tuple[GNode, ...]
@@ -194,7 +207,7 @@ class GProg:
                 continue
             try:
                 a = [val(e) for e in n.edges if e.kind == "pos"] + [("const", c) for c in n.consts]
-                kw = {f"k{e.src}" if e.src >= 0 else f"p{-1 - e.src}": val(e) for e in n.edges if e.kind == "kw"}
+                kw = {name: val(e) for name, e in kw_items(n)}
                 active = True
                 for e in n.edges:
                     if e.kind == "flag":
@@ -244,7 +257,7 @@ class GProg:
         for i, n in enumerate(self.nodes):
             fn = n.fn or f"n{i}"
             parts = [atom(e) for e in n.edges if e.kind == "pos"] + [repr(c) for c in n.consts]
-            parts += [(f"k{e.src}" if e.src >= 0 else f"p{-1 - e.src}") + "=" + atom(e) for e in n.edges if e.kind == "kw"]
+            parts += [name + "=" + atom(e) for name, e in kw_items(n)]
             for e in n.edges:
                 if e.kind == "flag":
                     parts.append("twz_active=" + atom(e))
